@@ -43,6 +43,8 @@ def run(prog, rep):
     json_render.check(prog, rep, 'R8.2', want=('parsestream',))
     rep.rule('R8.7', 'JSON strings and keys travel with their length: GetString() is paired with GetStringLength(), no member lookup by key.c_str()', floor=2)
     json_render.check(prog, rep, 'R8.7', want=('strings',))
+    rep.rule('R8.8', 'every rapidjson Writer / PrettyWriter is instantiated with the target encoding of its output stream (AutoUTF over AutoUTFOutputStream, the buffer encoding over a string buffer)', floor=4)
+    json_render.check(prog, rep, 'R8.8', want=('writers',))
 
     enum = prog.enums.get(ENUM)
     if enum is None:
